@@ -372,11 +372,13 @@ func (w *world) observe(ctx context.Context, strayIDs map[int]bool) *obs {
 		}
 	}
 	sort.Ints(o.strays)
-	ents, _ := os.ReadDir(filepath.Join(blobsDir, "sha256"))
-	for _, e := range ents {
-		d := digest.NewDigestFromEncoded(digest.SHA256, e.Name())
-		if id, ok := w.byDig[d]; ok {
-			o.blobs = append(o.blobs, id)
+	for _, alg := range []digest.Algorithm{digest.SHA256, digest.SHA384, digest.SHA512} {
+		ents, _ := os.ReadDir(filepath.Join(blobsDir, alg.String()))
+		for _, e := range ents {
+			d := digest.NewDigestFromEncoded(alg, e.Name())
+			if id, ok := w.byDig[d]; ok {
+				o.blobs = append(o.blobs, id)
+			}
 		}
 	}
 	sort.Ints(o.blobs)
@@ -469,6 +471,39 @@ func (w *world) guarded(f func(ctx context.Context) error) (err error, hung bool
 type replayCase struct {
 	Graph []dag.Encoded `json:"graph"`
 	Ops   string        `json:"ops"`
+	// digest algorithm of the nodes that are not sha256 (dag.Decode recomputes sha256)
+	Algs map[string]string `json:"algs,omitempty"`
+}
+
+func algsOf(g *dag.Graph) map[string]string {
+	m := map[string]string{}
+	for _, n := range g.Nodes {
+		if a := n.Desc.Digest.Algorithm(); a != digest.SHA256 {
+			m[strconv.Itoa(n.ID)] = a.String()
+		}
+	}
+	return m
+}
+
+func applyAlgs(g *dag.Graph, algs map[string]string) {
+	for k, a := range algs {
+		id, err := strconv.Atoi(k)
+		if err != nil || id < 0 || id >= len(g.Nodes) {
+			continue
+		}
+		g.Nodes[id].Desc.Digest = digest.Algorithm(a).FromBytes(g.Nodes[id].Bytes)
+	}
+}
+
+// altDigest re-addresses the node that was appended last under sha512 or sha384 (nothing
+// refers to it yet, so no other node's bytes change)
+func altDigest(r *common.Rand, g *dag.Graph) {
+	n := g.Nodes[len(g.Nodes)-1]
+	alg := digest.SHA512
+	if r.Chance(1, 3) {
+		alg = digest.SHA384
+	}
+	n.Desc.Digest = alg.FromBytes(n.Bytes)
 }
 
 func modelInput(g *dag.Graph, ops []op, seed uint64) string {
@@ -521,7 +556,7 @@ func runCase(g *dag.Graph, ops []op, seed uint64) { runCaseAttempt(g, ops, seed,
 
 func runCaseAttempt(g *dag.Graph, ops []op, seed uint64, attempt int) {
 	id := run.NewID()
-	rep := replayCase{Graph: g.Encode(), Ops: opsString(ops)}
+	rep := replayCase{Graph: g.Encode(), Ops: opsString(ops), Algs: algsOf(g)}
 	fail := func(sig, msg string) {
 		run.OracleFail(id, sig, msg+" graph="+strings.Join(g.Describe(), " ")+" ops="+rep.Ops, rep)
 	}
@@ -986,6 +1021,9 @@ func genCase(r *common.Rand) (*dag.Graph, []op) {
 			break
 		}
 	}
+	if r.Chance(1, 3) {
+		addAltBlob(r, g)
+	}
 	addReferrers(r, g, r.Intn(5))
 	if r.Chance(1, 4) {
 		addHeldCluster(r, g)
@@ -1129,6 +1167,20 @@ func appendManifest(g *dag.Graph, index bool, subject int, cfg int, lists []int,
 	return id
 }
 
+// addAltBlob: a layer addressed by sha512/sha384 and an image manifest using it as its
+// config (content under blobs/sha512, blobs/sha384 must be swept and kept like any other)
+func addAltBlob(r *common.Rand, g *dag.Graph) {
+	id := len(g.Nodes)
+	body := []byte(fmt.Sprintf("alt-blob-%d-%x", id, r.U64()))
+	g.Nodes = append(g.Nodes, &dag.Node{ID: id, Kind: dag.KBlob, Bytes: body, Subject: -1, TwinOf: -1,
+		Desc: ocispec.Descriptor{MediaType: ocispec.MediaTypeImageLayer, Digest: digest.FromBytes(body), Size: int64(len(body))}})
+	altDigest(r, g)
+	appendManifest(g, false, -1, id, nil, "a")
+	if r.Chance(1, 2) {
+		altDigest(r, g)
+	}
+}
+
 // addHeldCluster: a referrer X of some manifest m that an index R lists (R is itself a
 // referrer of m, or of nothing) and that has a referrer of its own: X must wait for R and
 // is never "dangling" while its own referrer exists.
@@ -1150,6 +1202,9 @@ func addHeldCluster(r *common.Rand, g *dag.Graph) {
 	m := common.Pick(r, manifests)
 	c := common.Pick(r, blobs)
 	x := appendManifest(g, false, m, c, nil, "x")
+	if r.Chance(1, 3) {
+		altDigest(r, g)
+	}
 	rs := -1
 	switch r.Intn(3) {
 	case 0:
@@ -1234,6 +1289,9 @@ func addReferrers(r *common.Rand, g *dag.Graph, k int) {
 		nd.Bytes = body
 		nd.Desc = ocispec.Descriptor{MediaType: mt, Digest: digest.FromBytes(body), Size: int64(len(body))}
 		g.Nodes = append(g.Nodes, nd)
+		if r.Chance(1, 4) {
+			altDigest(r, g)
+		}
 	}
 }
 
@@ -1407,7 +1465,14 @@ func main() {
 			if err := json.Unmarshal([]byte(c["graph"]), &es); err != nil {
 				continue
 			}
-			runCase(dag.Decode(es), parseOps(c["ops"]), 0)
+			rg := dag.Decode(es)
+			if a, ok := c["algs"]; ok {
+				algs := map[string]string{}
+				if json.Unmarshal([]byte(a), &algs) == nil {
+					applyAlgs(rg, algs)
+				}
+			}
+			runCase(rg, parseOps(c["ops"]), 0)
 		}
 		run.Finish()
 		return
